@@ -145,10 +145,11 @@ func (Engine) Describe(prop string) kernel.Describe {
 			"challenge durations are 1-30 s (Fund's context); asset lists contain only multi.Asset values",
 		},
 		Real: []string{"channel/multi.Adjudicator (Register, Progress, Withdraw, dispatch)", "channel/multi.Funder (Fund, SetEgoisticPart, fundLedgers)", "channel/multi assets.LedgerIDs", "channel.AdjudicatorReq / ProgressReq / FundingReq / State / Params values"},
-		Stub: []string{"channel.Adjudicator / channel.Funder of each ledger -> scripted recorders with keyed latency", "multi.Asset / LedgerBackendID -> (backend id, ledger id) pairs, a fresh value per asset",
+		Stub: []string{"channel.Adjudicator / channel.Funder of each ledger -> scripted recorders with keyed latency (their subscriptions hand out events the harness emits)", "multi.Asset / LedgerBackendID -> (backend id, ledger id) pairs, a fresh value per asset",
 			"time and contexts -> testing/synctest fake clock"},
 		FaultKinds: []string{"fail (sub-call returns an error)", "stall (sub-call blocks until its context ends)", "slow (sub-call ignores the context and returns nil after the funding timeout)",
-			"unregistered ledger", "foreign registered ledgers", "keyed latencies (every completion order)", "overlapping calls"},
+			"unregistered ledger", "foreign registered ledgers", "keyed latencies (every completion order)", "overlapping calls", "caller cancels", "concurrent twin request",
+			"epilogue: multi-ledger subscriptions and a ledger registered again with another adjudicator object"},
 	}
 }
 
